@@ -222,15 +222,28 @@ var templates = []struct {
 	{"run-error", "probe(\"start\")\nload_json(\"{bad\")\nprobe(\"never\")"},
 	{"run-error", "url_decode(bad)\nadd_key(after, 1)"},
 	{"ok", "x = 0\nfor ;; {\n x = x + 1\n probe(\"x\", x)\n if x >= 4 { break }\n continue\n}\nprobe(\"done\", x)"},
+	// the same grok expression text under different alias definitions (and under none: see badLoads)
+	{"ok", "add_pattern(\"tok\", \"[a-z]+\")\nok = grok(_, \"%{tok:val}\")\nprobe(\"tok\", ok, val)"},
+	{"ok", "add_pattern(\"tok\", \"\\\\d+\")\nok = grok(_, \"%{tok:val}\")\nprobe(\"tok\", ok, val)"},
+	{"ok", "add_pattern(\"tok\", \"\\\\w+ \\\\w+\")\nok = grok(_, \"%{tok:val}\")\nprobe(\"tok\", ok, val)"},
+	{"ok", "if true {\n add_pattern(\"tok\", \"[a-z]\")\n ok = grok(_, \"%{tok:val}\")\n probe(\"in\", ok, val)\n}\nadd_pattern(\"tok\", \"[0-9]\")\nok = grok(_, \"%{tok:val}\")\nprobe(\"out\", ok, val)"},
+	{"ok", "add_pattern(\"WORD\", \"x+\")\nok = grok(_, \"%{WORD:w1} %{INT:n:int}\")\nprobe(\"shadowed-global\", ok, w1, n)"},
+	// builtins whose arguments are only examined at run time
+	{"run-error", "probe(\"s\")\nreplace(message, \"(\", \"x\")\nprobe(\"never\")"},
+	{"ok", "replace(message, \"[a-z]+\", \"<$0>\")\nreplace(message, \"l\", \"L\")\nprobe(\"m\", message)"},
+	{"ok", "datetime(n1, \"ms\", \"nosuch layout\")\nprobe(\"d\", n1)"},
+	{"ok", "datetime(n1, \"s\", \"RFC3339\")\nprobe(\"d\", n1)\nsql_cover(_)\nprobe(\"q\", message)"},
+	{"ok", "strfmt(s, \"%d|%s\", \"x\", 2)\nprobe(\"s\", s)\nxml(_, \"/a/b\", v)\nprobe(\"v\", v)"},
+	{"ok", "cast(n1, \"int\")\ncast(message, \"bool\")\nprobe(\"c\", n1, message)"},
 }
 
 var badParses = []string{"x = = 1", "-0x", "for a in 1e {}", "\"unterminated", "a[", "if a {", "x = 1 +", "f(", "`", "\"\\q\"", "a = 1; b = ;", "{\"a\": }", "for ;; ", ")", "x = \"a\" \"b\""}
-var badLoads = []string{"nosuch()", "add_key()", "break", "cast(a, \"zzz\")", "grok(_, \"%{NOSUCH:x}\")", "if true { continue }", "x = [1, nosuch2()]", "use(1)"}
+var badLoads = []string{"ok = grok(_, \"%{tok:val}\")", "grok(_, \"%{inner:x}\")", "nosuch()", "add_key()", "break", "cast(a, \"zzz\")", "grok(_, \"%{NOSUCH:x}\")", "if true { continue }", "x = [1, nosuch2()]", "use(1)"}
 
 func genPool(t *rapid.T, n int) []*Op {
 	var pool []*Op
 	point := func() (map[string]string, map[string]string) {
-		f := map[string]any{"message": rapid.SampledFrom([]string{"hello 42", "abc1 x", "", "two words"}).Draw(t, "msg")}
+		f := map[string]any{"message": rapid.SampledFrom([]string{"hello 42", "abc1 x", "", "two words", "SELECT 'backslash\\' AND id ='1234'", "SELECT 'a\\' -- ', b\nFROM t", "<a><b>t</b></a>"}).Draw(t, "msg")}
 		if rapid.Bool().Draw(t, "n1") {
 			f["n1"] = rapid.SampledFrom([]any{int64(5), 2.5, true, nil, "s"}).Draw(t, "n1v")
 		}
@@ -243,6 +256,21 @@ func genPool(t *rapid.T, n int) []*Op {
 		}
 		return tags, renderFields(f)
 	}
+	// every template once on its own and once as the callee of a use() call; the rest of the pool is random
+	for ti, tp := range templates {
+		tags, fields := point()
+		pool = append(pool, &Op{Kind: "run", Scripts: map[string]string{"main.p": tp.src}, Root: "main.p", Tags: tags, Fields: fields, Class: tp.class})
+		tags, fields = point()
+		pool = append(pool, &Op{Kind: "run", Scripts: map[string]string{"main.p": "probe(\"caller-start\")\nv = 1\nuse(\"c.p\")\nprobe(\"caller-end\", v)\nadd_key(done, true)", "c.p": tp.src}, Root: "main.p", Tags: tags, Fields: fields, Class: tp.class})
+		if ti%3 == 0 {
+			// the callee's script set also loaded with the callee as the root (run directly after / before the caller ran it)
+			pool = append(pool, &Op{Kind: "run", Scripts: map[string]string{"main.p": "probe(\"caller-start\")\nv = 1\nuse(\"c.p\")\nprobe(\"caller-end\", v)\nadd_key(done, true)", "c.p": tp.src}, Root: "c.p", Tags: tags, Fields: fields, Class: tp.class})
+		}
+	}
+	for _, src := range badLoads {
+		pool = append(pool, &Op{Kind: "load", Scripts: map[string]string{"main.p": src, "other.p": "add_key(o, 1)"}, Root: "main.p", Class: "load-error"})
+	}
+	n += len(pool)
 	for len(pool) < n {
 		switch rapid.IntRange(0, 9).Draw(t, "opkind") {
 		case 0:
